@@ -983,7 +983,7 @@ func smGen(r *vu.Rng, i int, prop int) []string {
 			final := smPickFinal(r, rig, s)
 			apply(fmt.Sprintf("rreset %d %d %d", id, r.Intn(300), final))
 		case x < 36 && canRecv:
-			n := []int{0, 1, 2, 3, 10, 50, 100, 1000, 4096, 5000}[r.Intn(10)]
+			n := []int{0, 1, 2, 3, 10, 50, 100, 1000, 4095, 4096, 4097, 5000, 100000}[r.Intn(13)]
 			apply(fmt.Sprintf("read %d %d", id, n))
 		case x < 39 && canRecv:
 			apply(fmt.Sprintf("closeread %d", id))
@@ -1114,7 +1114,20 @@ func smPickRecv(r *vu.Rng, rig *smRig, s *Stream, bad bool) (int64, int, bool) {
 	if connLeft < limit-high {
 		limit = high + max(0, connLeft)
 	}
-	switch r.Intn(6) {
+	chunkEdge := func() int64 { // an offset at a pipe chunk boundary (4096) -1 / 0 / +1, near what was received
+		k := (high/4096 + int64(r.Intn(2))) * 4096
+		return max(0, k+int64(r.Range(-1, 1)))
+	}
+	switch r.Intn(9) {
+	case 6: // ends or starts exactly at / around a chunk boundary, in order
+		off = high
+		n = int(max(0, chunkEdge()-high))
+	case 7: // out of order / overlapping piece straddling a chunk boundary
+		off = max(0, chunkEdge()-int64(r.Intn(40)))
+		n = r.Intn(80)
+	case 8: // duplicate or overlap of about a chunk
+		off = int64(r.Intn(int(high) + 1))
+		n = []int{4095, 4096, 4097}[r.Intn(3)]
 	case 0, 1: // in order
 		off = high
 		n = r.Intn(200)
